@@ -70,7 +70,8 @@ type flowState struct {
 	firstMode string
 	acqModes  map[string]bool // modes in which the primary mutex is acquired by the own body
 	irregular bool
-	derived   map[string]bool // locals assigned, while a lock was held, from an expression that mentions the receiver
+	derived   map[string]bool       // locals assigned, while a lock was held, from an expression that mentions the receiver
+	releasers map[string]lockHelper // locals holding the function returned by a releaser helper (r := recv.rlock())
 }
 
 // phase: 0 = before the method's first lock, 1 = while it is held, 2 = after it was released (own goroutine only)
@@ -372,11 +373,36 @@ func (w *walker) flowStmt(s ast.Stmt) {
 			w.lockOp(path, op, s)
 			return
 		}
+		if h, ok := w.releaserCall(x.X); ok { // the returned releaser is dropped: the lock stays held
+			w.lockOp(h.path, h.op, s)
+			return
+		}
+		if ce, ok := x.X.(*ast.CallExpr); ok && len(ce.Args) == 0 {
+			if id, ok := ce.Fun.(*ast.Ident); ok {
+				if h, ok := w.releasers[id.Name]; ok { // release()
+					w.lockOp(h.path, unlockOf(h.op), s)
+					return
+				}
+			}
+		}
 		w.walkExpr(x.X, w.ctx())
 		if isPanicCall(x.X) {
 			w.st.dead = true
 		}
 	case *ast.DeferStmt:
+		if inner, ok := x.Call.Fun.(*ast.CallExpr); ok && len(x.Call.Args) == 0 {
+			if h, ok := w.releaserCall(inner); ok { // defer recv.rlock()()
+				w.lockOp(h.path, h.op, s)
+				w.deferUnlock(h.path, unlockOf(h.op), s)
+				return
+			}
+		}
+		if id, ok := x.Call.Fun.(*ast.Ident); ok && len(x.Call.Args) == 0 {
+			if h, ok := w.releasers[id.Name]; ok { // defer release()
+				w.deferUnlock(h.path, unlockOf(h.op), s)
+				return
+			}
+		}
 		if path, op, _, ok := stmtLock(w, s); ok {
 			w.deferUnlock(path, op, s)
 			return
@@ -419,6 +445,18 @@ func (w *walker) flowStmt(s ast.Stmt) {
 		}
 		w.walkExpr(x.Call, w.ctx())
 	case *ast.AssignStmt:
+		if len(x.Lhs) == 1 && len(x.Rhs) == 1 {
+			if id, ok := x.Lhs[0].(*ast.Ident); ok {
+				if h, ok := w.releaserCall(x.Rhs[0]); ok { // release := recv.rlock()
+					w.lockOp(h.path, h.op, s)
+					if w.releasers == nil {
+						w.releasers = map[string]lockHelper{}
+					}
+					w.releasers[id.Name] = h
+					return
+				}
+			}
+		}
 		c := w.ctx()
 		for _, r := range x.Rhs {
 			w.walkExpr(r, c)
@@ -712,4 +750,22 @@ func (w *walker) derivedUse(e ast.Expr, at ast.Node) bool {
 	}
 	w.unknown("<"+id.Name+", computed from the receiver under the lock, is used after the lock was released>", w.ctx(), at)
 	return true
+}
+
+// releaserCall: e is `recv.h()` for a helper h that acquires a receiver mutex and returns the function releasing it
+func (w *walker) releaserCall(e ast.Expr) (lockHelper, bool) {
+	ce, ok := e.(*ast.CallExpr)
+	if !ok || len(ce.Args) != 0 {
+		return lockHelper{}, false
+	}
+	se, ok := ce.Fun.(*ast.SelectorExpr)
+	if !ok {
+		return lockHelper{}, false
+	}
+	id, ok := se.X.(*ast.Ident)
+	if !ok || id.Name != w.recv {
+		return lockHelper{}, false
+	}
+	h, ok := w.tf.lockHelpers[se.Sel.Name]
+	return h, ok && h.kind == "releaser"
 }
